@@ -165,6 +165,21 @@ class Sim:
         self.func_of = func_of
 
     # ------------------------------------------------------------------ guard evaluation
+    def _term(self, node: ast.AST) -> Any:
+        t = self.model.expr_terms.get(id(node))
+        return t if t is not None else getattr(self, "aux_terms", {}).get(id(node))
+
+    def presence(self, fs: FS, env: Dict[str, Any], H: List[Any]) -> bool:
+        """what has_blob answers on this file-system state: its own return expression when it is a single boolean
+        expression over probes (so that `and` / `or` / `not` count), else the conjunction of the names it probes"""
+        e = getattr(self, "presence_expr", None)
+        if e is not None:
+            try:
+                return bool(self.truth(e, fs, Proc("reader", [], env)))
+            except Unknown:
+                pass
+        return all(fs.exists(inst(t, env)) for t in H)
+
     def truth(self, e: ast.AST, fs: FS, p: Proc) -> bool:
         if isinstance(e, ast.Constant):
             return bool(e.value)  # `while True:` retry loops
@@ -176,7 +191,7 @@ class Sim:
         if isinstance(e, ast.Call):
             d = unparse(e.func)
             if d in PROBES or d.split(".")[-1] in ("exists", "isdir", "isfile", "islink", "lexists"):
-                t = self.model.expr_terms.get(id(e.args[0])) if e.args else None
+                t = self._term(e.args[0]) if e.args else None
                 if t is None:
                     raise Unknown(unparse(e))
                 return fs.exists(inst(t, p.env), follow=not d.endswith(("islink", "lexists")))
@@ -185,7 +200,7 @@ class Sim:
                 return unparse(e.args[1]).endswith("FileCodecProtocol")
             raise Unknown(unparse(e))
         if isinstance(e, ast.Compare) and len(e.ops) == 1 and isinstance(e.ops[0], (ast.Eq, ast.NotEq)):
-            lt, rt = self.model.expr_terms.get(id(e.left)), self.model.expr_terms.get(id(e.comparators[0]))
+            lt, rt = self._term(e.left), self._term(e.comparators[0])
             if lt is None or rt is None:
                 raise Unknown(unparse(e))
             lv, rv = self.resolve(inst(lt, p.env), fs), self.resolve(inst(rt, p.env), fs)
@@ -273,7 +288,7 @@ def _tolerant(e: Optional[Effect]) -> bool:
 # ----------------------------------------------------------------------------------------------
 def blob_view(sim: Sim, fs: FS, H: List[Any], F: List[Any], env: Dict[str, Any]) -> Optional[str]:
     """reader invariant for one key: has_blob => everything fetch_blob reads is a complete file"""
-    has = all(fs.exists(inst(t, env)) for t in H)
+    has = sim.presence(fs, env, H)
     if not has:
         return None
     for t in F:
